@@ -64,6 +64,29 @@ class Sx:
     def cos(self, x):
         return x.cos() if hasattr(x, "cos") else Sym._co(x).cos()
 
+    # boolean algebra usable in both modes
+    def b(self, x):
+        if isinstance(x, SymBool):
+            return x
+        if isinstance(x, Cond):
+            return SymBool(x)
+        return SymBool(Cond.const(bool(x)))
+
+    def and_(self, *xs):
+        return core.sym_and(*[self.b(x) for x in xs])
+
+    def or_(self, *xs):
+        return core.sym_or(*[self.b(x) for x in xs])
+
+    def not_(self, x):
+        return ~self.b(x)
+
+    def iff(self, x, y):
+        return self.b(x) == self.b(y)
+
+    def xor(self, x, y):
+        return self.b(x) != self.b(y)
+
     def claim_eq(self, name, a, b):
         return core.claim_eq(name, a, b)
 
@@ -123,6 +146,24 @@ class Cx:
 
     def _rec(self, name, ok, detail):
         self.results[name] = (bool(ok), detail)
+
+    def b(self, x):
+        return bool(x)
+
+    def and_(self, *xs):
+        return all(bool(x) for x in xs)
+
+    def or_(self, *xs):
+        return any(bool(x) for x in xs)
+
+    def not_(self, x):
+        return not bool(x)
+
+    def iff(self, x, y):
+        return bool(x) == bool(y)
+
+    def xor(self, x, y):
+        return bool(x) != bool(y)
 
     def claim_eq(self, name, a, b):
         a, b = float(a), float(b)
@@ -207,6 +248,8 @@ def run_e2(name, names, body, pre=None, positive=(), expect_raise=None, max_path
                                 claims=[c.as_dict() | {"witness": _jsonable(c.witness)} for c in p.claims[:4]]))
         if p.status == "abort":
             harness_errors.append("path aborted: %s" % p.error)
+        elif p.status == "shim-error":
+            harness_errors.append("shim error: %s" % (p.error or "")[-700:])
         elif p.status not in allow_status:
             # an outcome the harness did not expect: exception / non-finite result inside the real code
             c = core.ClaimResult("outcome:" + p.status, "violated", dict(p.sample), (p.error or "")[-600:])
